@@ -193,7 +193,7 @@ func genC06(r *rng, tier string) *Case {
 	}
 	if p.Term.Op == "multiUse" {
 		for k := r.rangeInt(1, 3); k > 0; k-- {
-			p.MU = append(p.MU, Stage{Op: pick(r, "sum", "size", "reduce", "last", "string", "mapReduce", "minMax", "first", "topsize"), N: pick(r, 1, 5, 30)})
+			p.MU = append(p.MU, Stage{Op: pick(r, "sum", "size", "reduce", "last", "string", "mapReduce", "minMax", "first", "topsize", "lazyret"), N: pick(r, 1, 5, 30)})
 		}
 	}
 	p.K = pick(r, 0, 3, 40, 500, 100000)
@@ -238,7 +238,7 @@ func genC06(r *rng, tier string) *Case {
 		}
 	}
 	for _, m := range p.MU {
-		if m.Op == "first" || m.Op == "topsize" {
+		if m.Op == "first" || m.Op == "topsize" || m.Op == "lazyret" {
 			full = false
 		}
 	}
@@ -918,7 +918,7 @@ func genC12(r *rng, tier string) *Case {
 			if huge {
 				p.MU = append(p.MU, Stage{Op: pick(r, "first", "topsize", "present"), N: r.rangeInt(1, 30)})
 			} else {
-				p.MU = append(p.MU, Stage{Op: pick(r, "first", "topsize", "sum", "size", "noread", "noread", "present", "last", "sum", "size", "notfunc", "arity2", "twice", "twice", "twice-short"), N: r.rangeInt(1, 30)})
+				p.MU = append(p.MU, Stage{Op: pick(r, "first", "topsize", "sum", "size", "noread", "noread", "present", "last", "sum", "size", "notfunc", "arity2", "twice", "twice", "twice-short", "lazyret", "lazyret"), N: r.rangeInt(1, 30)})
 			}
 		}
 	}
